@@ -98,6 +98,9 @@ func classifyPackage(d *PkgDesc, c PkgCtx, cfgBad string, pullErr bool, otherSam
 		return "constraint-unmet:platform"
 	case d.KubeRange != "" && !kubeRangeMet(d.KubeRange, c.KubeVersion):
 		return "constraint-unmet:version"
+	case d.OpenShiftRange != "" && c.OpenShift && !kubeRangeMet(d.OpenShiftRange, "4.13.0"):
+		// (on a cluster that is not OpenShift the constraint does not apply)
+		return "constraint-unmet:version"
 	case d.Unique && otherSameManifest:
 		return "constraint-unmet:unique"
 	case cfgBad != "":
